@@ -356,6 +356,10 @@ def stepLine1 (r : RState) (op impl : String) : RState × String :=
                     maybeAsync := if o.asyncErr then r.maybeAsync else r.maybeAsync + 1, expectNack := r.expectNack ++ o.errTo,
                     mustCover := max r.mustCover pre.applied }, a)
       | ["ack", _] =>
+          -- C14 (failed_job_never_acks): an acknowledgement released for a job whose persist FAILED
+          if wasSync && (match pre.job with | some j => j.phase == .failed | none => false) then
+            (r, setAns a (ansResult a) "bad:acknowledgement-released-after-failed-persist the grabbed root's persist failed and persistSnapshot still returned nil")
+          else
           -- C14 (retry_covers): the acknowledgement that follows a failed persist covers everything applied when the
           -- failure was reported, including the batches whose own call returned the error
           (match pre.job with
